@@ -13,7 +13,7 @@ func init() {
 		ID:          "C12",
 		Run:         runC12,
 		MinObl:      16,
-		Explanation: "NOT decided (not applicable to this family): that the three scope strategies and two audience strategies decide exactly as documented — a statement about the results of small string algorithms; no structural necessary condition short of re-deriving the algorithm exists and a frozen-shape check would be a brittle proxy. Decided — the confinement half: R1 every flow validates what it is asked for: at every success exit (token-endpoint grants client_credentials, password, JWT-bearer) / issuing sink (authorization-endpoint handlers; layers: NewAuthorizeRequest or the handler), at the PAR endpoint (layers: NewPushedAuthorizeRequest or the PAR handler) and at the device endpoint, every iterated requested scope was accepted by the configured scope strategy (GetScopeStrategy, not a constant) against the client's registered scopes (JWT-bearer: the signing key's scopes from GetPublicKeyScopes) with the loop left only by exhaustion, and the configured audience strategy returned nil for (client audience, requested audience) where the flow takes an audience; R2 every GrantScope/GrantAudience in the handlers takes an element of the stored grant, or (JWT-bearer) of the validated requested scopes / the verified assertion's audience; R3 JWT access-token claims and the scope response field are built from GetGrantedScopes/GetGrantedAudience only.",
+		Explanation: "Every element below the exact length of a requested-scope list must have been accepted by the strategy (an element the path never mentions was skipped, not accepted). NOT decided (not applicable to this family): that the three scope strategies and two audience strategies decide exactly as documented — a statement about the results of small string algorithms; no structural necessary condition short of re-deriving the algorithm exists and a frozen-shape check would be a brittle proxy. Decided — the confinement half: R1 every flow validates what it is asked for: at every success exit (token-endpoint grants client_credentials, password, JWT-bearer) / issuing sink (authorization-endpoint handlers; layers: NewAuthorizeRequest or the handler), at the PAR endpoint (layers: NewPushedAuthorizeRequest or the PAR handler) and at the device endpoint, every iterated requested scope was accepted by the configured scope strategy (GetScopeStrategy, not a constant) against the client's registered scopes (JWT-bearer: the signing key's scopes from GetPublicKeyScopes) with the loop left only by exhaustion, and the configured audience strategy returned nil for (client audience, requested audience) where the flow takes an audience; R2 every GrantScope/GrantAudience in the handlers takes an element of the stored grant, or (JWT-bearer) of the validated requested scopes / the verified assertion's audience; R3 JWT access-token claims and the scope response field are built from GetGrantedScopes/GetGrantedAudience only.",
 	})
 }
 
@@ -118,6 +118,12 @@ func scopesValidatedAt(p *Path, at *Event, req *Term, boundOK func(*Term) bool) 
 			continue
 		}
 		ok := true
+		// the loop was left by exhaustion, so the length is exact: every element below it must
+		// have been accepted (an element the path never mentions was skipped, not accepted)
+		exact := int64(-1)
+		if lo, hi := p.IntBoundsAt(at, call("len", X)); lo != nil && hi != nil && *lo == *hi {
+			exact = *lo
+		}
 		for k := 0; k < 3; k++ {
 			el := mk("idx", "", X, tInt(int64(k)))
 			iter := false
@@ -125,6 +131,9 @@ func scopesValidatedAt(p *Path, at *Event, req *Term, boundOK func(*Term) bool) 
 				if f.Atom.A != nil && f.Atom.A.Contains(el.Key()) || f.Atom.B != nil && f.Atom.B.Contains(el.Key()) {
 					iter = true
 				}
+			}
+			if exact >= 0 {
+				iter = int64(k) < exact
 			}
 			if !iter {
 				continue
